@@ -68,6 +68,7 @@ package service
 // Metric range queries (matrix): same grouping protocol, one object per series.
 //@ func (*QueryRangeService).QueryRange$2 [C15]
 //@   requires !errReported
+//@   at strconv.FormatFloat plain-decimal-shortest-exact: arg1 == 102 && arg2 == -1 && arg3 == 64
 //@   ensures errReported || jsDone(stream)
 //@   loop 1:
 //@     invariant 0 <= i && i <= 1 && 0 <= j && j <= 1 && grouped(stream, i, j) && !errReported
@@ -81,6 +82,7 @@ package service
 //@ spec fn inSeries(s *jsoniter.Stream) bool = envelope(s) && s.g_depth == 5 && s.g_state[3] == 2 && s.g_kind[4] == 1 && s.g_state[4] == 2 && s.g_kind[5] == 1
 //@ func (*QueryRangeService).QueryInstant$2 [C15]
 //@   requires !errReported
+//@   at strconv.FormatFloat plain-decimal-shortest-exact: arg1 == 102 && arg2 == -1 && arg3 == 64
 //@   ensures errReported || jsDone(stream)
 //@   loop 1:
 //@     invariant i == 0 && inResult(stream) && stream.g_state[3] == 0 && !errReported
